@@ -414,6 +414,8 @@ def pterm(rng, case, opts, allow_int=True):
     """a non-signal scalar term"""
     kinds = ["x", "u", "p", "pc", "pp", "v", "vc", "vp", "t", "T", "t0"]
     choices = ["at0", "atf", "atf"]
+    if case.get("discrete"):
+        allow_int = False       # ocp.integral needs continuous-time dynamics (rockit asserts)
     if allow_int:
         choices += ["int", "sum", "sump"] + (["intc"] if opts.get("intc", False) else [])
     k = rng.choice(choices)
